@@ -49,7 +49,7 @@ func (p *Prog) GoSites() []GoSite {
 						// method value
 						if o := ObjOf(info, x.Args[0]); o != nil {
 							if fo, isF := o.(*TFunc); isF {
-								s.Callee = Short(fo.FullName())
+								s.Callee = canonFunc(Short(fo.FullName()))
 								s.Target = p.byName[s.Callee]
 							}
 						}
